@@ -1,4 +1,4 @@
-package PKG
+package optimizer
 
 // Nondeterministic inputs and verification primitives. These declarations have no bodies:
 // the symbolic interpreter (gosym) intercepts them; for native replay the file
